@@ -402,20 +402,21 @@ where
 		let filename = format!("{}.grintx", uuid);
 		let path = path::Path::new(&self.data_file_dir)
 			.join(TX_SAVE_DIR)
-			.join(filename);
+			.join(&filename);
 		let tx_file = Path::new(&path).to_path_buf();
 		let mut tx_f = File::open(tx_file)?;
 		let mut content = String::new();
 		tx_f.read_to_string(&mut content)?;
-		let tx_bin = util::from_hex(&content).unwrap();
-		Ok(Some(
-			ser::deserialize(
-				&mut &tx_bin[..],
-				ser::ProtocolVersion(1),
-				ser::DeserializationMode::default(),
-			)
-			.unwrap(),
-		))
+		// a partially written or corrupted file is an error, not a crash
+		let tx_bin = util::from_hex(&content)
+			.map_err(|e| Error::StoredTx(format!("{}: invalid hex, {}", filename, e)))?;
+		let tx = ser::deserialize(
+			&mut &tx_bin[..],
+			ser::ProtocolVersion(1),
+			ser::DeserializationMode::default(),
+		)
+		.map_err(|e| Error::StoredTx(format!("{}: {}", filename, e)))?;
+		Ok(Some(tx))
 	}
 
 	fn batch<'a>(
